@@ -27,3 +27,36 @@ package main
 //@   props C12 C16 C20
 //@   iteration-local SchemaMapping
 //@   maprange 0: argued the order only decides in which order the output files are written; their names and contents come from Sources()
+
+// ---- the flag table (C16): name, variable, kind, default -----------------------
+// "-" is the nil default of a string-slice flag.
+//@ func main
+//@   props C16
+//@   flag verbose verbose bool false
+//@   flag extra-imports extraImports bool false
+//@   flag only-models onlyModels bool false
+//@   flag package defaultPackage string ""
+//@   flag output defaultOutput string "-"
+//@   flag schema-package schemaPackages strings -
+//@   flag schema-output schemaOutputs strings -
+//@   flag schema-root-type schemaRootTypes strings -
+//@   flag capitalization capitalizations strings -
+//@   flag resolve-extension resolveExtensions strings -
+//@   flag yaml-extension yamlExtensions strings .yml,.yaml
+//@   flag struct-name-from-title structNameFromTitle bool false
+//@   flag tags tags strings json,yaml,mapstructure
+//@   flag min-sized-ints minSizedInts bool false
+
+// ---- each generator.Config field is taken from its own flag variable (C16) ------
+//@ func init$1@wiring
+//@   props C16
+//@   wires ExtraImports extraImports
+//@   wires Capitalizations capitalizations
+//@   wires DefaultOutputName defaultOutput
+//@   wires DefaultPackageName defaultPackage
+//@   wires ResolveExtensions resolveExtensions
+//@   wires YAMLExtensions yamlExtensions
+//@   wires StructNameFromTitle structNameFromTitle
+//@   wires Tags tags
+//@   wires OnlyModels onlyModels
+//@   wires MinSizedInts minSizedInts
